@@ -573,8 +573,8 @@ def check_flags(ctx, R="C13.flags"):
 
 
 def check(ctx):
-    check_flags(ctx)
-    check_priority(ctx)
-    check_resume(ctx)
-    check_invariants(ctx)
-    check_abandoned(ctx)
+    ctx.run(check_flags)
+    ctx.run(check_priority)
+    ctx.run(check_resume)
+    ctx.run(check_invariants)
+    ctx.run(check_abandoned)
